@@ -206,6 +206,24 @@ theorem buffered_bounded {s : State} (h : Reachable s) :
   have := hi.size
   omega
 
+/-- **Permits come back.** Once the application (or `recv_open`) has consumed everything that was queued, all permits
+are available again: a slow reader delays the peer, it never wedges the multiplexer. -/
+theorem permits_return_when_consumed {s : State} (h : Reachable s) (he : ∀ k, frames (s.st k) = []) :
+    s.countAvail + curCnt s.cur = s.cfg.rfc ∧ s.sizeAvail = s.cfg.rbs := by
+  have hi := PInv_reachable h
+  have hz : ∀ (g : StreamSt → Nat), (∀ k, g (s.st k) = 0) → sumK (keysOf s) g s.st = 0 := by
+    intro g hg
+    unfold sumK
+    generalize keysOf s = ks
+    induction ks with
+    | nil => rfl
+    | cons a ks ih => simp only [List.map_cons, List.sum_cons, hg a, ih]
+  have h1 := hz cntOf (fun k => by simp [cntOf, he k])
+  have h2 := hz szOf (fun k => by simp [szOf, he k])
+  have := hi.count
+  have := hi.size
+  omega
+
 /-! ## the OPEN / CLOSE state machine and the hand-over of the exclusive locks -/
 
 /-- **At most `min(local, peer)` transient streams per capability.** Take any set of distinct application slots each
